@@ -94,6 +94,7 @@ func instrHandlers(c *core.Ctx, r *core.Report, rule string) map[string]string {
 func c08(c *core.Ctx, r *core.Report) {
 	c08tuples(c, r)
 	c08fixpoint(c, r)
+	apGrammarRule(c, r, "R08.apgrammar", "analysis/dataflow")
 	r.Explain("R08.dispatch: lang.InstrSwitch has, for every ssa.Instruction implementer, a case that calls the InstrOp method whose parameter type is that kind (DebugRef empty by design, MultiConvert by build mode).")
 	r.Explain("R08.operands: for every dispatched kind T, every operand field of T (table extracted from go/ssa's own Operands methods as compiled into Argot) is read on a value of type *ssa.T (resp. ssa.CallCommon, ssa.SelectState) inside the call-graph cone of the code responsible for T: its Do<T> handler on dataflow.IntraAnalysisState, the functions called by the makeEdgesAtInstruction case covering T, and for Defer the RunDefers simulation; reasoned exceptions are listed.")
 	r.Explain("R08.builtins: isHandledBuiltinCall and doBuiltinCall are partially evaluated over (builtin name x feasible SSA arity); handled => the handler returns true on every path (otherwise the call gets neither a builtin model nor call edges); every universe builtin that go/ssa keeps as a call is classified by name.")
